@@ -1862,6 +1862,14 @@ theorem J_deepDiff {cfg : DCfg} (hp : Diff.Plain cfg) (al : Align) (hashOf : PyV
   · rfl
   · simp only [mutualAddRemoves_noiter _ hnoiter]
 
+/-- the unmerged result of two nested dictionaries is the same tree (there is nothing to fold) -/
+theorem J_diffUnmerged {cfg : DCfg} (hp : Diff.Plain cfg) (al : Align) (hashOf : PyVal → String) (a b : PyVal)
+    (ja : J cfg.ignorePrivate a) (jb : J cfg.ignorePrivate b) :
+    diffUnmerged cfg al hashOf a b = ⟨(diffV cfg al hashOf [] a b).tree, []⟩ := by
+  have hops := (J_diff hp al hashOf (sizeOf a) a b (Nat.le_refl _) ja jb).1 []
+  unfold diffUnmerged
+  simp only [skipSteps_plain hp, Bool.false_eq_true, if_false, keepReported_plain hp, hops]
+
 /-- **The round trip for nested dictionaries**, plain or bidirectional: `t1 + Delta(DeepDiff(t1, t2))` is `== t2`, nothing logged. -/
 theorem nested_roundtrip (cfg : DCfg) (hp : Diff.Plain cfg) (al : Align) (hashOf : PyVal → String) (bidir directed always : Bool)
     (hmode : bidir = true → directed = false ∧ always = true)
